@@ -11,7 +11,11 @@ evolution operator, couplings and C1 (c1dvcs / c1dvmp) passed to the model as da
 
 Oracle streams (real code only): the LO handbag relation at every scale (1e-10: identity of sums), and contour
 independence — CFFs, TFFs, F2, Hx for phi ∈ [π/2, 2.1] and c ∈ [0.3, 0.6] against the default contour, within the
-accuracy of the quadrature (what no theorem states).  They support the theorems, they do not replace them.
+accuracy of the quadrature (what no theorem states); and the same contour independence (Re and Im of cff / tff, DISF2, at
+phi ∈ {default, π/2, ≈1.75, ≈1.9, 2.1}) for theory classes composed from the mix-ins in other ways than the all-in-one
+class: TFF-only (PWNormGPD + MellinBarnesTFF [+ DVMP]), CFF-only, DIS-only, and other orders of the mix-ins — against the
+default contour of the same class, against the all-in-one class, and (one tilted contour per case) against the model.
+They support the theorems, they do not replace them.
 """
 import math
 
@@ -361,6 +365,229 @@ def run(rep):
                          kw, par, dict(x=xi, eta=xi, xi=xi, xB=xi, t=t, Q2=Q2), 'th.cff(pt) / th.DISF2(pt) / th.Hx(pt) / th.tff(xi,t,Q2)',
                          default_contour=ref[2])
 
+    # ---------------------------------------------------------------- 5. oracle: contour independence of every class composition
+    # The property speaks of CFFs, TFFs and F2 of "a Mellin-Barnes model", not of the one all-in-one class of sections 1-4:
+    # a theory is composed from mix-ins (docs/source/theory.rst; tests/dvmp_test.py builds PWNormGPD + MellinBarnesTFF + DVMP)
+    # and what a constructor of one mix-in sets up may be overwritten — or not — by another one later in the MRO.  Each
+    # composition is evaluated at phi ∈ {default, π/2, ≈1.75, ≈1.9, 2.1} (msbar NLO: phi ≤ 1.9, see known_findings.json) and
+    # Re and Im of every observable it offers are compared with (a) the default contour of the SAME composition and (b) the
+    # default contour of the all-in-one class (same parameters, same point), with the allowance of section 4.  The theory at
+    # one of the tilted contours also goes to the model (c05.tgj / c05.cff / c05.tff lines: the model computes tan(πj/2) and
+    # the contour sums itself), which is the independent reference at a fixed contour.
+    G_, C_, T_, D_ = g.gpd.PWNormGPD, g.cff.MellinBarnesCFF, g.dvmp.MellinBarnesTFF, g.dis.DIS
+    V_, X_ = g.dvmp.DVMP, g.dvcs.DVCS
+    DOTTED = {G_: 'gepard.gpd.PWNormGPD', C_: 'gepard.cff.MellinBarnesCFF', T_: 'gepard.dvmp.MellinBarnesTFF',
+              D_: 'gepard.dis.DIS', V_: 'gepard.dvmp.DVMP', X_: 'gepard.dvcs.DVCS'}
+    SHORT = {G_: 'GPD', C_: 'CFF', T_: 'TFF', D_: 'DIS', V_: 'DVMP', X_: 'DVCS'}
+    # the first four are in every run; the orders are those in which the mix-ins can be instantiated at all (MellinBarnesCFF
+    # needs the contour points and DIS needs nf at construction, so both come after the GPD class)
+    COMPOSITIONS = [(G_, C_, D_, T_), (G_, T_, V_), (G_, C_), (G_, D_),
+                    (G_, T_), (T_, G_), (V_, T_, G_), (T_, V_, G_), (G_, C_, X_), (X_, G_, C_), (G_, T_, C_), (T_, G_, C_),
+                    (G_, C_, T_, V_), (V_, G_, T_, C_), (G_, D_, T_), (T_, G_, D_), (G_, T_, D_), (G_, D_, C_), (G_, C_, D_),
+                    (G_, T_, D_, C_), (T_, G_, D_, C_), (G_, D_, C_, T_), (G_, D_, T_, C_)]
+    N_DOCUMENTED = 4
+
+    def comp_name(bases):
+        return '+'.join(SHORT[b] for b in bases)
+
+    def comp_repro(bases, call):
+        return 'class Th(%s): pass; th = Th(**theory); th.parameters.update(parameters); %s' % (
+            ', '.join(DOTTED[b] for b in bases), call)
+
+    comp_classes = {}
+
+    def comp_class(bases):
+        if bases not in comp_classes:
+            try:
+                comp_classes[bases] = type('Th_' + comp_name(bases).replace('+', '_'), bases, {})
+            except TypeError as ex:                      # no consistent MRO
+                comp_classes[bases] = ex
+        return comp_classes[bases]
+
+    def comp_observables(th, xi, t, Q2, want=('H', 'TFF', 'F2')):
+        """{name: (value, Σ|terms| of its contour sum)} of everything the composition offers; value complex (Re, Im) or float.
+        The scales are built from the harness's own tan(πj/2) (th.tgj is part of what is being checked)."""
+        out = {}
+        tg = np.abs(np.tan(math.pi * th.jpoints / 2))
+        cfj = np.abs(np.exp((th.jpoints + 1) * math.log(1 / xi)))
+        pwH, pwE = np.abs(th.pw_strengths()), np.abs(th.pw_strengths_E())
+        if hasattr(th, 'cff') and 'H' in want:
+            cf = th.cff(g.DataPoint({'xi': xi, 't': t, 'Q2': Q2}))[:4]
+            wce = np.abs(evolved_wc(th, 'wce', Q2, 'DVCS'))
+            h = np.abs(np.einsum('f,fa,ja->jf', th.dvcs_charges, th.frot, th.H(xi, t)))
+            e = np.abs(np.einsum('f,fa,ja->jf', th.dvcs_charges, th.frot, th.E(xi, t)))
+            aH = np.einsum('j,sa,sja,ja->j', cfj, pwH, wce, h)
+            aE = np.einsum('j,sa,sja,ja->j', cfj, pwE, wce, e)
+            out['H'] = (complex(cf[0], cf[1]), math.hypot(np.dot(th.wg, aH * tg), np.dot(th.wg, aH)))
+            out['E'] = (complex(cf[2], cf[3]), math.hypot(np.dot(th.wg, aE * tg), np.dot(th.wg, aE)))
+        if hasattr(th, 'tff') and 'TFF' in want:
+            tf = th.tff(xi, t, Q2)
+            hm = np.abs(np.einsum('fa,ja->jf', th.frot_rho0_4, th.H(xi, t)))
+            asq_ = g.qcd.as2pf(th.p, th.nf, Q2, th.asp[th.p], th.r20)
+            pre = abs(constants.CF * constants.F_rho0 * 2 * math.pi * asq_ / constants.NC / math.sqrt(Q2))
+            a = np.einsum('j,sa,sja,ja->j', cfj, pwH, np.abs(evolved_wc(th, 'wce_dvmp', Q2, 'DVMP')), hm)
+            out['TFF'] = (complex(tf[0], tf[1]), pre * math.hypot(np.dot(th.wg, a * tg), np.dot(th.wg, a)))
+        if hasattr(th, 'DISF2') and 'F2' in want:
+            f2 = th.DISF2(g.DataPoint({'x': xi, 'eta': 0, 'xB': xi, 't': 0, 'Q2': Q2}))
+            # Σ|terms| of _dis_mellin_barnes_integral from the evolved coefficients [j, flavour] (as for H and TFF; the operator
+            # data of section 4's j2x_scale costs as much as the evaluation itself)
+            memo = getattr(th, 'wce_dis', None)
+            wd = memo[Q2] if isinstance(memo, dict) and Q2 in memo and getattr(memo[Q2], 'ndim', 0) == 2 else \
+                wilson.calc_wce(th, Q2, 'DIS')[0, :, :]
+            pdf = np.abs(np.einsum('fa,ja->jf', FROT_X, th.H(0, 0)))
+            a = np.einsum('j,ja,ja->j', np.abs(np.exp(th.jpoints * math.log(1 / xi))), np.abs(wd), pdf)
+            out['F2'] = (float(f2), float(abs(th.dis_charge) * np.dot(th.wg, a) / math.pi))
+        return out
+
+    def comp_parts(name, v):
+        return [('Re ' + name, v.real), ('Im ' + name, v.imag)] if isinstance(v, complex) else [(name, v)]
+
+    def comp_model_lines(th, kw, par, bases, xi, t, Q2, full):
+        """the theory object of a composition against the model: tan(πj/2) at a few contour points, and (full) cff / tff"""
+        cname = comp_name(bases)
+        info = dict(composition=cname, theory=kw, parameters=par, point=dict(xi=xi, t=t, Q2=Q2),
+                    reproduce=comp_repro(bases, 'th.tgj / th.cff(pt) / th.tff(xi, t, Q2)'))
+        tgj = getattr(th, 'tgj', None)
+        if tgj is not None and len(tgj) == len(th.jpoints):
+            for k in sorted(rng.sample(range(len(th.jpoints)), 3)):
+                j, z = complex(th.jpoints[k]), complex(tgj[k])
+                lines.append(' '.join(['c05.tgj', f2hex(j.real), f2hex(j.imag)]))
+                meta.append(dict(kind='tgj', key='%s/k=%d' % (cname, k), code=[z.real, z.imag], scales=[abs(z)] * 2, tol=1e-13,
+                                 info=dict(info, j=str(j))))
+        if not full:
+            return
+        p, nf, phi, rt = th.p, th.nf, kw.get('phi', PHI0), RT[kw.get('residualt', 'dipole')]
+        asf, asr = couplings(th, Q2)
+        pwH, pwE = th.pw_strengths(), th.pw_strengths_E()
+        tg = np.abs(np.tan(math.pi * th.jpoints / 2))
+        cfj = np.abs(np.exp((th.jpoints + 1) * math.log(1 / xi)))
+        if hasattr(th, 'cff'):
+            pd = point_data(th, Q2, 'DVCS')
+            code = [float(v) for v in th.cff(g.DataPoint({'xi': xi, 't': t, 'Q2': Q2}))[:4]]
+            wce = np.abs(evolved_wc(th, 'wce', Q2, 'DVCS'))
+            h = np.abs(np.einsum('f,fa,ja->jf', th.dvcs_charges, th.frot, th.H(xi, t)))
+            e = np.abs(np.einsum('f,fa,ja->jf', th.dvcs_charges, th.frot, th.E(xi, t)))
+            aH = np.einsum('j,sa,sja,ja->j', cfj, np.abs(pwH), wce, h)
+            aE = np.einsum('j,sa,sja,ja->j', cfj, np.abs(pwE), wce, e)
+            lines.append(' '.join(['c05.cff', str(p), str(nf), str(rt), '0', '|'] + hexes([asf, asr, phi, xi, t]) +
+                                  pw_tokens(th.frot) + pw_tokens(pwH) + pw_tokens(pwE) + par_tokens(th, H_KEYS) +
+                                  [f2hex(th.parameters['kaps']), f2hex(th.parameters['ns'])] + par_tokens(th, E_KEYS) + ['|'] +
+                                  points_tokens(pd['arr'])))
+            meta.append(dict(kind='cff', key='%s/p=%d/%s' % (cname, p, kw['scheme']), code=code, tol=TOL, info=info,
+                             scales=[np.dot(th.wg, aH * tg), np.dot(th.wg, aH), np.dot(th.wg, aE * tg), np.dot(th.wg, aE)]))
+        if hasattr(th, 'tff') and nf == 4:
+            pdm = point_data(th, Q2, 'DVMP')
+            r = th.tff(xi, t, Q2)
+            asq = g.qcd.as2pf(th.p, th.nf, Q2, th.asp[th.p], th.r20)
+            pre = abs(constants.CF * constants.F_rho0 * 2 * math.pi * asq / constants.NC / math.sqrt(Q2))
+            hm = np.abs(np.einsum('fa,ja->jf', th.frot_rho0_4, th.H(xi, t)))
+            a = np.einsum('j,sa,sja,ja->j', cfj, np.abs(pwH), np.abs(evolved_wc(th, 'wce_dvmp', Q2, 'DVMP')), hm)
+            lines.append(' '.join(['c05.tff', str(p), str(nf), str(rt), '0', '|'] +
+                                  hexes([asf, asr, asq, np.sqrt(Q2), constants.F_rho0, phi, xi, t]) + pw_tokens(th.frot_rho0_4) +
+                                  pw_tokens(pwH) + par_tokens(th, H_KEYS) + ['|'] + points_tokens(pdm['arr'])))
+            meta.append(dict(kind='tff', key='%s/p=%d/%s' % (cname, p, kw['scheme']), code=[float(r[0]), float(r[1])], tol=TOL,
+                             info=info, scales=[pre * np.dot(th.wg, a * tg), pre * np.dot(th.wg, a)]))
+
+    # schedule: the four documented compositions first, at all five angles (LO msbar, LO csbar, NLO csbar, LO msbar); then one
+    # msbar NLO case (phi ≤ 1.9); then random compositions and orders, each at the default and at two of the four other angles
+    ncomp = 17 if quick else 200
+    ncomp_slow = 1 if quick else 8            # msbar NLO: 1.5 s per evaluation
+    comp_slow_at = {N_DOCUMENTED + k_ * ((ncomp - N_DOCUMENTED) // ncomp_slow) for k_ in range(ncomp_slow)}
+    for i in range(ncomp):
+        slow = i in comp_slow_at
+        if slow:
+            bases = rng.choice([COMPOSITIONS[1], COMPOSITIONS[2], rng.choice(COMPOSITIONS[4:])])
+            if D_ in bases and not (C_ in bases or T_ in bases):
+                bases = COMPOSITIONS[1]
+            p, scheme = 1, 'msbar'
+        else:
+            bases = COMPOSITIONS[i] if i < N_DOCUMENTED else rng.choice(COMPOSITIONS[1:])
+            p, scheme = combos[i % 3] if i < N_DOCUMENTED else rng.choice(combos[:3] + combos[:2])
+        cname = comp_name(bases)
+        cls = comp_class(bases)
+        par = random_pars(rng, small_pw=rng.random() < 0.7)
+        xi = 10 ** rng.uniform(-4, math.log10(0.3))
+        t = rng.uniform(-1, 0)
+        Q2 = 4.0 if i % 3 == 0 else 10 ** rng.uniform(math.log10(4.0), 2)
+        rt = 'dipole' if rng.random() < 0.8 else 'exp'
+        point = dict(x=xi, eta=xi, xi=xi, xB=xi, t=t, Q2=Q2)
+        phis = [math.pi / 2, 1.75 + rng.uniform(-0.05, 0.05), 1.9 - rng.uniform(0, 0.04)] + ([] if slow else [2.1])
+        if slow:
+            phis = phis[1:]
+        elif i >= N_DOCUMENTED:
+            first = rng.choice(phis + phis[1:])                        # two different ones, π/2 half as likely as the others
+            phis = [first, rng.choice([x_ for x_ in phis + phis[1:] if x_ != first])]
+        phis = [None] + phis
+        rep.hist('composition', cname)
+        rep.hist('composition.theory', 'p=%d/%s' % (p, scheme))
+        rep.hist('composition.Q2', 'input scale' if Q2 == 4.0 else 'evolved')
+        res = []
+        failed = None
+        for phi in phis:
+            kw = dict(p=p, scheme=scheme, nf=4, Q02=4.0, residualt=rt)
+            if phi is not None:
+                kw['phi'] = phi
+            try:
+                if isinstance(cls, Exception):
+                    raise cls
+                th = cls(**kw)
+            except Exception as ex:
+                failed = ex
+                break
+            th.parameters.update(par)
+            res.append((phi, kw, th, comp_observables(th, xi, t, Q2)))
+        if failed is not None:
+            # an order of mix-ins that cannot be instantiated is outside the property; the documented compositions must exist
+            rep.hist('composition.not instantiable', cname)
+            if COMPOSITIONS.index(bases) < N_DOCUMENTED:
+                rep.violation('composition/%s/constructor' % cname, 'the theory class %s cannot be built: %r' % (cname, failed),
+                              dict(theory=kw, reproduce=comp_repro(bases, '')), found_input=True)
+            continue
+        refs = [('the default contour of the same class', cname, res[0][1], res[0][3])]
+        if not slow and bases != COMPOSITIONS[0] and (i < N_DOCUMENTED or i % 2 == 0):
+            kw0 = dict(p=p, scheme=scheme, nf=4, Q02=4.0, residualt=rt)
+            th0_ = comp_class(COMPOSITIONS[0])(**kw0)
+            th0_.parameters.update(par)
+            o0 = comp_observables(th0_, xi, t, Q2, want=tuple(res[0][3]))
+            refs.append(('the default contour of the all-in-one class ' + comp_name(COMPOSITIONS[0]), comp_name(COMPOSITIONS[0]),
+                         kw0, {k: v for k, v in o0.items() if k in res[0][3]}))
+        for phi, kw, th, obs in res:
+            rep.case('oracle.compositions', (cname, p, scheme, xi, t, Q2, phi),
+                     sample=dict(composition=cname, theory=kw, point=dict(xi=xi, t=t, Q2=Q2), values={k: str(v[0]) for k, v in obs.items()},
+                                 default_contour={k: str(v[0]) for k, v in res[0][3].items()}))
+            rep.hist('composition.phi', 'default' if phi is None else '%.2f' % phi)
+            for what_ref, ref_name, ref_kw, ref in refs:
+                if phi is None and ref is res[0][3]:
+                    continue
+                for name in ref:
+                    v, s = obs[name]
+                    v0, s0_ = ref[name]
+                    allow = CREL * abs(v0) + CS * max(s, s0_)
+                    nd = (p == 1 and scheme == 'msbar' and phi is not None and phi > 1.9 and name in ('H', 'E'))
+                    for (part, a_), (_, b_) in zip(comp_parts(name, v), comp_parts(name, v0)):
+                        d = abs(a_ - b_)
+                        if allow == 0 and d == 0:
+                            rep.hist('composition.identically zero', part)
+                            continue
+                        label = 'compositions %s' % part + (' (msbar NLO)' if slow else '')
+                        track(label + ': deviation / tolerance', sdiv(d, allow))
+                        if not d <= allow:
+                            call = {'H': 'th.cff(pt)[:2]', 'E': 'th.cff(pt)[2:4]', 'TFF': 'th.tff(xi, t, Q2)[:2]', 'F2': 'th.DISF2(pt)'}[name]
+                            rep.violation(
+                                ('contour-nd/msbar-nlo/phi>1.9/%s' % name) if nd else 'contour-composition/%s/%s/p=%d/%s' % (cname, part, p, scheme),
+                                '%s of the class %s changes with the Mellin-Barnes contour angle: %.12g at phi=%s, but %.12g at %s; '
+                                'difference %.3g, allowed %.3g (|%s| = %.6g); ξ=%g t=%g Q2=%g p=%d %s' % (
+                                    part, cname, a_, 'default' if phi is None else '%.6g' % phi, b_, what_ref, d, allow, name, abs(v0),
+                                    xi, t, Q2, p, scheme),
+                                dict(composition=cname, theory=kw, parameters=par, point=point, reproduce=comp_repro(bases, call),
+                                     reference=dict(composition=ref_name, theory=ref_kw,
+                                                    reproduce=comp_repro(COMPOSITIONS[0] if ref_name != cname else bases, call))),
+                                found_input=True)
+        # one tilted contour of this composition against the model
+        if not slow:
+            phi, kw, th, obs = rng.choice([r_ for r_ in res if r_[0] is not None and r_[0] > 1.6] or res[1:])
+            comp_model_lines(th, kw, par, bases, xi, t, Q2, full=(i % 3 != 2))
+
     rep.coverage['worst_oracle_values'] = {k: float('%.3g' % v) for k, v in sorted(worst_o.items())}
 
     # ---------------------------------------------------------------- model vs code
@@ -400,10 +627,16 @@ def run(rep):
         'second term covers ImE near a zero of its quark/gluon cancellation)',
         'contour independence: |v(phi,c) − v(default)| ≤ 2e-3·|v| + 1e-4·Σ|terms| with v = H, E, TFF as complex numbers, F2, '
         'Hx[0], Hx[1]; measured on the current tree: ≤1.3e-3 relative (worst at ξ≈1e-4 and phi=2.1, where the result is '
-        'much smaller than the integrand on the contour); the worst value in units of the tolerance is in worst_oracle_values']
+        'much smaller than the integrand on the contour); the worst value in units of the tolerance is in worst_oracle_values',
+        'class compositions (oracle.compositions): PWNormGPD with MellinBarnesCFF / MellinBarnesTFF / DIS / DVMP / DVCS mixed in, in '
+        'the orders that can be instantiated; nf=4, Q0²=4, c default, phi ∈ {default, π/2, 1.75±0.05, [1.86,1.9], 2.1} (msbar NLO: '
+        'default, ≈1.75, ≈1.9 only); each of Re, Im of H, E, TFF and F2 within the allowance of the contour stream, '
+        '2e-3·|v| + 1e-4·Σ|terms| with v the complex value, of the default contour of the same class and of the all-in-one class']
     rep.notes += ['oracle.* streams evaluate the property on the real code; contour independence is Cauchy\'s theorem for the '
                   'continuous integral plus a quadrature-error statement that no theorem here carries',
-                  'MellinBarnesTFF.tff is compared with the model (c1dvmp as data); its contour independence is in oracle.contour']
+                  'MellinBarnesTFF.tff is compared with the model (c1dvmp as data); its contour independence is in oracle.contour',
+                  'oracle.compositions: the attributes a mix-in sets at construction (tgj, the per-Q2 memos) depend on which mix-ins '
+                  'a class has and in which order; sections 1-4 use one all-in-one class, this stream the others']
     return rep.finish(level='proof',
                       checker_cmd='lake build Props.C05; #print axioms; gepdriver c05.* vs gepard.cff / dvmp / mellin / wilson',
                       trusted=['Lean 4.33 kernel + Mathlib', 'Scalar/MB.lean.in instantiated at Float and ℝ (same text)',
